@@ -129,6 +129,22 @@ def specHolds (env : Env) (e : Expr) (g : CF) : Bool :=
   (indicesC g.mesh.n).all fun i =>
     decide (cellOf g.data i g.nvdim = evalCell env e i) && (g.valid.get i == validCell env e i)
 
+/-- operand of a two-output ufunc call: a leaf field or a non-field operand -/
+def valOfJson (fields : List CF) (j : Json) : R Val := do
+  match ← exprOfJson j with
+  | .leaf k =>
+    match fields[k]? with
+    | some f => pure (.fld f)
+    | none => throw "leaf index"
+  | .opd o => pure (.raw o)
+  | _ => throw "pair operands are leaves or operands"
+
+/-- the cells of a field as component lists, for the executable per-cell statement -/
+def pairSpecHolds (fn : GQ → GQ → GQ) (f o g : CF) : Bool :=
+  (indicesC g.mesh.n).all fun i =>
+    decide (cellOf g.data i g.nvdim = bz fn (cellOf f.data i f.nvdim) (cellOf o.data i o.nvdim)) &&
+      (g.valid.get i == (f.valid.get i && o.valid.get i))
+
 end C03J
 open C03J
 
@@ -159,6 +175,20 @@ def c03 (op : String) (j : Json) : Option (R Json) :=
       let f ← cfOfJson (← fld j "field")
       let l ← strOfJson (← fld j "label")
       pure (resJ cfToJson (getComp f l))
+  | "pair" => some do
+      let fields ← listOf cfOfJson (← fld j "fields")
+      let l ← valOfJson fields (← fld j "l")
+      let r ← valOfJson fields (← fld j "r")
+      match ufunc2pair GQ.floorDiv GQ.pymod false l r with
+      | .error er => pure (errJ er)
+      | .ok (g1, g2) =>
+        let spec := match l, r with
+          | .fld f, .fld o => pairSpecHolds GQ.floorDiv f o g1 && pairSpecHolds GQ.pymod f o g2
+          | _, _ => false
+        pure (Json.mkObj [("ok", Json.mkObj [("a", cfToJson g1), ("b", cfToJson g2), ("spec", .bool spec)])])
+  | "pair1" => some do
+      let f ← cfOfJson (← fld j "field")
+      pure (resJ (fun (_ : CF × CF) => Json.null) (ufunc1pair f))
   | _ => none
 
 end DFV.Drv
